@@ -445,3 +445,307 @@ Lemma ignores_after_cut_example :
   /\ compile fixed_params no_texts (s9_log ++ s9_later) 2 = compile fixed_params no_texts s9_log 2
   /\ compile fixed_params no_texts s9_log 2 <> None.
 Proof. repeat split; try (vm_compute; reflexivity). vm_compute. discriminate. Qed.
+
+(* ------------------------------------------------------------------ the read paths agree *)
+Lemma lastn_app_ge {A} n (a b : list A) : (n <= length b)%nat -> lastn n (a ++ b) = lastn n b.
+Proof.
+  intros H. unfold lastn. rewrite rev_app_distr, firstn_app, rev_length.
+  replace (n - length b)%nat with O by lia. now rewrite firstn_O, app_nil_r.
+Qed.
+
+Lemma find_filter_implied {A} (p k : A -> bool) (l : list A) :
+  (forall x, p x = true -> k x = true) -> find p (filter k l) = find p l.
+Proof.
+  intros H. induction l as [|x l IH]; [reflexivity|]. cbn [filter find].
+  destruct (k x) eqn:K; cbn [find].
+  - now rewrite IH.
+  - destruct (p x) eqn:Px; [rewrite (H _ Px) in K; discriminate | exact IH].
+Qed.
+
+Lemma msg_items_ext texts e1 e2 sel :
+  (forall f, In f sel -> lookup (fseq f) e1 = lookup (fseq f) e2) ->
+  msg_items texts e1 sel = msg_items texts e2 sel.
+Proof.
+  induction sel as [|f r IH]; [reflexivity|]. intros H. cbn [msg_items].
+  unfold reply_items. rewrite (H f (or_introl eq_refl)). rewrite IH; [reflexivity|].
+  intros g G. apply H. now right.
+Qed.
+
+Lemma ends_for_props from m f : ends_for from m f = true ->
+  is_run_ended f = true /\ fseq f <= from /\ exists r, fb f = BRunEnded r m.
+Proof.
+  unfold ends_for, is_run_ended. destruct (fb f) as [|r m'| |]; try discriminate.
+  intros H. apply andb_true_iff in H. destruct H as [E L]. apply N.eqb_eq in E. subst. repeat split; [lia|eauto].
+Qed.
+
+(* the reply lookup sees the same thing through a projection that keeps run_ended frames *)
+Lemma answered_filter keep from m l :
+  (forall f, mr_keep f = true -> keep f = true) ->
+  find (ends_for from m) (rev (filter keep l)) = find (ends_for from m) (rev l).
+Proof.
+  intros K. rewrite <- filter_rev'. apply find_filter_implied. intros x X.
+  apply ends_for_props in X. destruct X as (R & _). apply K. unfold mr_keep. rewrite R. apply orb_true_r.
+Qed.
+Lemma answered_upto from m l :
+  find (ends_for from m) (rev (upto from l)) = find (ends_for from m) (rev l).
+Proof.
+  unfold upto. rewrite <- filter_rev'. apply find_filter_implied. intros x X.
+  apply ends_for_props in X. destruct X as (_ & L & _). lia.
+Qed.
+
+Lemma in_window_msg from after f : in_window from after f = true -> is_msg f = true.
+Proof. unfold in_window. intros H. apply andb_true_iff in H. destruct H as [H _]. apply andb_true_iff in H. tauto. Qed.
+
+Lemma window_filter_keep keep from after l :
+  (forall f, mr_keep f = true -> keep f = true) ->
+  filter (in_window from after) (filter keep l) = filter (in_window from after) l.
+Proof.
+  intros K. apply filter_filter_implied. intros x X. apply K. unfold mr_keep.
+  rewrite (in_window_msg _ _ _ X). reflexivity.
+Qed.
+
+Lemma wf_refs_in l f : wf_refs l = true -> In f l -> names_earlier f = true.
+Proof. unfold wf_refs. rewrite forallb_forall. auto. Qed.
+
+Lemma in_firstn {A} n (x : list A) y : In y (firstn n x) -> In y x.
+Proof.
+  revert x. induction n as [|n IH]; intros x; destruct x as [|z x]; cbn [firstn]; intros H; try (now destruct H).
+  destruct H as [->|H]; [now left | right; auto].
+Qed.
+
+Section PathsAgree.
+  Variables (keep : frame -> bool) (l src pre evs : log) (from : N) (limit : nat).
+  Hypothesis Hincr : incr l.
+  Hypothesis Hwf : wf_refs l = true.
+  Hypothesis Hkeep : forall f, mr_keep f = true -> keep f = true.
+  Hypothesis Hsrc : src = l \/ src = upto from l.
+  Hypothesis Hsplit : filter keep src = pre ++ evs.
+  Hypothesis Hfull : pre = [] \/ (limit <= count_msgs_upto from evs)%nat.
+
+  Let L := filter keep src.
+
+  Lemma src_incr : incr src.
+  Proof. destruct Hsrc as [->| ->]; [exact Hincr | apply incr_filter; exact Hincr]. Qed.
+  Lemma L_incr : incr (pre ++ evs).
+  Proof. rewrite <- Hsplit. apply incr_filter, src_incr. Qed.
+  Lemma evs_incr : incr evs.
+  Proof. exact (proj1 (proj2 (incr_app_inv _ _ L_incr))). Qed.
+  Lemma pre_before x y : In x pre -> In y evs -> fseq x < fseq y.
+  Proof. exact (proj2 (proj2 (incr_app_inv _ _ L_incr)) x y). Qed.
+
+  Lemma in_L_in_l f : In f (pre ++ evs) -> In f l.
+  Proof.
+    rewrite <- Hsplit. intros I. apply filter_In in I. destruct I as [I _].
+    destruct Hsrc as [->| ->]; [exact I|]. unfold upto in I. apply filter_In in I. tauto.
+  Qed.
+
+  Lemma window_src after : filter (in_window from after) (pre ++ evs) = filter (in_window from after) l.
+  Proof.
+    rewrite <- Hsplit, window_filter_keep by exact Hkeep.
+    destruct Hsrc as [->| ->]; [reflexivity|]. apply upto_filter_implied. apply in_window_upto.
+  Qed.
+
+  Lemma window_agrees after :
+    lastn limit (filter (in_window from after) evs) = lastn limit (filter (in_window from after) l).
+  Proof.
+    rewrite <- window_src, filter_app.
+    destruct Hfull as [->|Hc]; [reflexivity|].
+    destruct (filter (in_window from after) pre) as [|x xs] eqn:Fp; [reflexivity|].
+    rewrite <- Fp. symmetry. apply lastn_app_ge.
+    assert (Ix : In x (filter (in_window from after) pre)) by (rewrite Fp; now left).
+    apply filter_In in Ix. destruct Ix as [Ix Wx].
+    unfold count_msgs_upto in Hc.
+    replace (filter (in_window from after) evs) with (filter (fun f => (fseq f <=? from) && is_msg f) evs); [exact Hc|].
+    apply filter_ext_in. intros y Y. pose proof (pre_before x y Ix Y) as Lt.
+    unfold in_window in *. destruct after as [a|].
+    - apply andb_true_iff in Wx. destruct Wx as [_ Wa].
+      replace (a <? fseq y) with true by lia. rewrite andb_true_r. apply andb_comm.
+    - rewrite andb_true_r. apply andb_comm.
+  Qed.
+
+  Lemma lookup_agrees f : In f evs -> is_msg f = true ->
+    lookup (fseq f) (ended_runs from evs []) = lookup (fseq f) (ended_runs from l []).
+  Proof.
+    intros If Mf.
+    rewrite (ended_runs_spec from (fseq f) evs evs_incr []), (ended_runs_spec from (fseq f) l Hincr []).
+    assert (E : find (ends_for from (fseq f)) (rev l) = find (ends_for from (fseq f)) (rev (pre ++ evs))).
+    { rewrite <- Hsplit, answered_filter by exact Hkeep.
+      destruct Hsrc as [->| ->]; [reflexivity | now rewrite answered_upto]. }
+    rewrite E, rev_app_distr, find_app'.
+    destruct (find (ends_for from (fseq f)) (rev evs)); [reflexivity|].
+    rewrite find_none_intro; [reflexivity|].
+    intros x X. apply in_rev in X. destruct (ends_for from (fseq f) x) eqn:Ex; [|reflexivity].
+    apply ends_for_props in Ex. destruct Ex as (_ & _ & r & B).
+    pose proof (pre_before x f X If) as Lt.
+    assert (Il : In x l) by (apply in_L_in_l, in_or_app; now left).
+    pose proof (wf_refs_in l x Hwf Il) as W. unfold names_earlier in W. rewrite B in W. lia.
+  Qed.
+
+  Lemma lastn_incl {A} n (x : list A) y : In y (lastn n x) -> In y x.
+  Proof. unfold lastn. intros H. apply in_rev in H. apply in_rev. eapply in_firstn; exact H. Qed.
+
+  Theorem compile_with_paths_agree P texts cks a : p_limit P = limit ->
+    compile_with P texts evs cks from a = compile_with P texts l cks from a.
+  Proof.
+    intros Hl. unfold compile_with. cbv zeta. rewrite Hl.
+    assert (MI : forall after,
+      msg_items texts (ended_runs from evs []) (lastn limit (filter (in_window from after) evs)) =
+      msg_items texts (ended_runs from l []) (lastn limit (filter (in_window from after) l))).
+    { intros after. rewrite <- (window_agrees after). apply msg_items_ext. intros f F.
+      apply lastn_incl in F. apply filter_In in F. destruct F as [F W].
+      apply lookup_agrees; [exact F | exact (in_window_msg _ _ _ W)]. }
+    destruct (hierarchy (p_fixed P) from (p_max_refs P) cks) as [|c [|c2 r]];
+      rewrite ?select_recent_spec, ?select_recent_after_spec; now rewrite MI.
+  Qed.
+End PathsAgree.
+
+Theorem paths_agree P texts keep l cks from a evs :
+  incr l -> wf_refs l = true -> admissible_input keep (p_limit P) l from evs ->
+  compile_with P texts evs cks from a = compile_with P texts l cks from a.
+Proof.
+  intros S W (K & src & pre & Hs & Hsp & Hf).
+  exact (compile_with_paths_agree keep l src pre evs from (p_limit P) S W K Hs Hsp Hf P texts cks a eq_refl).
+Qed.
+
+(* the checkpoint sidecar / index (the projection of the stream on checkpoint frames) gives the same decision *)
+Lemma ckpt_of_non f : is_ckpt f = false -> ckpt_of f = None.
+Proof. unfold is_ckpt, ckpt_of. destruct (fb f); [reflexivity|reflexivity|discriminate|reflexivity]. Qed.
+
+Lemma checkpoint_projection_agrees P texts evs l from a :
+  compile_with P texts evs (filter is_ckpt l) from a = compile_with P texts evs l from a.
+Proof.
+  unfold compile_with, hierarchy, unique_of, latest_any.
+  rewrite !fold_left_filter; [reflexivity| |].
+  - intros u f K. unfold latest_step. now rewrite (ckpt_of_non f K).
+  - intros u f K. unfold unique_step. now rewrite (ckpt_of_non f K).
+Qed.
+
+(* the cut point computed from a scanned tail of a projection + the head of the stream *)
+Lemma first_msg_filter keep l : (forall f, is_msg f = true -> keep f = true) ->
+  first_msg_seq (filter keep l) = first_msg_seq l.
+Proof.
+  intros K. induction l as [|f r IH]; [reflexivity|]. cbn [filter first_msg_seq].
+  destruct (keep f) eqn:Kf; cbn [first_msg_seq].
+  - now rewrite IH.
+  - destruct (is_msg f) eqn:M; [rewrite (K f M) in Kf; discriminate | exact IH].
+Qed.
+
+Lemma cut_scan_filter keep a l : (forall f, is_msg f = true -> keep f = true) ->
+  cut_scan a (filter keep l) = cut_scan a l.
+Proof.
+  intros K. induction l as [|f r IH]; [reflexivity|]. cbn [filter cut_scan].
+  destruct (keep f) eqn:Kf; cbn [cut_scan].
+  - now rewrite IH, first_msg_filter.
+  - destruct (is_msg f) eqn:M; [rewrite (K f M) in Kf; discriminate | exact IH].
+Qed.
+
+Lemma cut_scan_skip a pre evs : existsb (is_anchor a) pre = false -> cut_scan a (pre ++ evs) = cut_scan a evs.
+Proof.
+  induction pre as [|f r IH]; [reflexivity|]. cbn [existsb app cut_scan]. intros H.
+  apply orb_false_iff in H. destruct H as [A B]. unfold is_anchor in A. rewrite A. auto.
+Qed.
+
+Theorem tail_cut_agrees keep l pre evs a :
+  incr l -> (forall f, mr_keep f = true -> keep f = true) ->
+  filter keep l = pre ++ evs -> existsb (is_anchor a) evs = true ->
+  tail_cut evs (head_seq l) a = cut_point l a.
+Proof.
+  intros S K Hs Ea. unfold tail_cut, cut_point. f_equal.
+  assert (Km : forall f, is_msg f = true -> keep f = true).
+  { intros f M. apply K. unfold mr_keep. now rewrite M. }
+  rewrite <- (cut_scan_filter keep a l Km), Hs. symmetry. apply cut_scan_skip.
+  assert (SL : incr (pre ++ evs)) by (rewrite <- Hs; apply incr_filter; exact S).
+  destruct (incr_app_inv _ _ SL) as (_ & _ & Lt).
+  destruct (existsb_anchor_in _ _ Ea) as (fa & Ia & _ & Efa).
+  destruct (existsb (is_anchor a) pre) eqn:Ep; [|reflexivity].
+  destruct (existsb_anchor_in _ _ Ep) as (fp & Ip & _ & Efp).
+  specialize (Lt fp fa Ip Ia). lia.
+Qed.
+
+(* all read paths: any admissible window + the checkpoint projection + the cut give the full-replay result *)
+Theorem all_paths_agree P texts keep l a from evs :
+  incr l -> wf_refs l = true -> cut_point l a = Some from ->
+  admissible_input keep (p_limit P) l from evs ->
+  Some (compile_with P texts evs (filter is_ckpt l) from a) = compile P texts l a.
+Proof.
+  intros S W C Ad. unfold compile. rewrite C. f_equal.
+  rewrite checkpoint_projection_agrees. apply (paths_agree P texts keep l l from a evs S W Ad).
+Qed.
+
+(* non-vacuity: a 20-message thread with replies; the mr tail holding the last 17 messages is admissible for
+   the newest message and is not the whole projection *)
+Fixpoint ex_msgs (n : nat) (s : N) : log :=
+  match n with O => [] | S k => mkf s BMsg :: mkf (s + 1) (BRunEnded s s) :: mkf (s + 2) BOther :: ex_msgs k (s + 3) end.
+Definition ex_log : log := mkf 0 BOther :: ex_msgs 20 1.
+Definition ex_tail : log := skipn 9 (filter mr_keep ex_log).
+Lemma paths_agree_example :
+  valid_log ex_log = true /\ wf_refs ex_log = true /\ cut_point ex_log 58 = Some 60
+  /\ filter mr_keep ex_log = firstn 9 (filter mr_keep ex_log) ++ ex_tail
+  /\ firstn 9 (filter mr_keep ex_log) <> []
+  /\ (16 <= count_msgs_upto 60 ex_tail)%nat
+  /\ tail_cut ex_tail (head_seq ex_log) 58 = Some 60.
+Proof. repeat split; try (vm_compute; reflexivity); try (vm_compute; lia). vm_compute. discriminate. Qed.
+
+(* ------------------------------------------------------------------ exact dependence for BOTH visibility rules:
+   decision and bundle are a function of the frames at or before the cut and of the visible checkpoint frames *)
+Lemma compile_with_cks_visible P texts evs l c a :
+  compile_with P texts evs (filter (visible (p_fixed P) c) l) c a = compile_with P texts evs l c a.
+Proof.
+  unfold compile_with, hierarchy, unique_of, latest_any.
+  rewrite !fold_left_filter; [reflexivity| |].
+  - intros u f K. unfold latest_step. unfold visible in K. destruct (ckpt_of f); [now rewrite K | reflexivity].
+  - intros u f K. unfold unique_step. unfold visible in K. destruct (ckpt_of f); [now rewrite K | reflexivity].
+Qed.
+
+Lemma compile_with_evs_upto P texts l cks c a : incr l ->
+  compile_with P texts (upto c l) cks c a = compile_with P texts l cks c a.
+Proof.
+  intros S. unfold compile_with. cbv zeta. rewrite ended_runs_upto by exact S.
+  destruct (hierarchy (p_fixed P) c (p_max_refs P) cks) as [|k [|k2 r]];
+    now rewrite ?select_recent_upto, ?select_recent_after_upto.
+Qed.
+
+Theorem depends_on_prefix_and_visible P texts l a c :
+  incr l -> cut_point l a = Some c ->
+  compile P texts l a = Some (compile_with P texts (upto c l) (filter (visible (p_fixed P) c) l) c a).
+Proof.
+  intros S H. unfold compile. rewrite H. f_equal.
+  now rewrite compile_with_cks_visible, compile_with_evs_upto.
+Qed.
+
+Lemma filter_none {A} (p : A -> bool) (l : list A) : (forall x, In x l -> p x = false) -> filter p l = [].
+Proof.
+  induction l as [|x l IH]; [reflexivity|]. intros H. cbn [filter].
+  rewrite (H x (or_introl eq_refl)). apply IH. intros y Y. apply H. now right.
+Qed.
+
+(* frames appended after the cut are not noticed unless one of them is a visible checkpoint *)
+Theorem ignores_after_cut_general P texts l later a g :
+  valid_log (l ++ later) = true ->
+  existsb (is_anchor a) l = true ->
+  find (fun f => is_msg f && (a <? fseq f)) l = Some g ->
+  (forall f, In f later -> visible (p_fixed P) (fseq g - 1) f = false) ->
+  compile P texts (l ++ later) a = compile P texts l a.
+Proof.
+  intros V Ea Fg Hv.
+  assert (Vl : valid_log l = true) by (eapply contig_app_l; exact V).
+  pose proof (valid_incr _ V) as S. pose proof (valid_incr _ Vl) as Sl.
+  set (c := fseq g - 1) in *.
+  assert (C1 : cut_point l a = Some c).
+  { rewrite (cut_point_spec l a Sl). unfold cut_spec. now rewrite Ea, Fg. }
+  assert (C2 : cut_point (l ++ later) a = Some c).
+  { rewrite (cut_point_spec _ a S). unfold cut_spec. rewrite existsb_app, Ea. cbn [orb].
+    now rewrite find_app', Fg. }
+  rewrite (depends_on_prefix_and_visible P texts _ a c S C2), (depends_on_prefix_and_visible P texts _ a c Sl C1).
+  f_equal. rewrite upto_app, filter_app, (filter_none _ later Hv), app_nil_r.
+  rewrite (upto_all_above c later); [now rewrite app_nil_r|].
+  destruct (incr_app_inv _ _ S) as (_ & _ & L). apply Forall_forall. intros y Y.
+  pose proof (find_some _ _ Fg) as [Ig _]. specialize (L g y Ig Y). unfold c. lia.
+Qed.
+
+Lemma ignores_after_cut_general_example :
+  valid_log (s9_log ++ [mkf 4 BMsg; mkf 5 (BCkpt true 4 0); mkf 6 (BRunEnded 0 1)]) = true
+  /\ existsb (is_anchor 2) s9_log = true
+  /\ find (fun f => is_msg f && (2 <? fseq f)) s9_log = Some (mkf 3 BMsg)
+  /\ forallb (fun f => negb (visible false (3 - 1) f)) [mkf 4 BMsg; mkf 5 (BCkpt true 4 0); mkf 6 (BRunEnded 0 1)] = true.
+Proof. repeat split; vm_compute; reflexivity. Qed.
